@@ -57,6 +57,8 @@ ASSUMPTIONS = ["integer time index (positions/labels); datetime/period indexes o
 RULE = ("exhaustive small scope over splitter kind x fh x window x step x strategy x X/no X x return_data for 3<=n<=7 (quick: seed-rotated 1/23 slice; n=8,9 sampled 2/5 in thorough), metric rotated, "
         "(feasible window configurations all, infeasible ones 1/5) + random series up to n=120 with gapped / shifted labels + failing-forecaster histories "
         "+ series of dtype float64 / float32 / int64 / int32 (whole numbers for the integer dtypes) and exogenous frames of dtype float64 / float32 / int64 in every evaluate stream "
+        "+ missing values in y (leading block / interior / trailing; a fifth of the recording-forecaster cases) + scorers with greater_is_better=True "
+        "(library scorer objects and custom callables) next to loss metrics in every stream "
         "+ forecaster instances that are not fresh (fitted/updated/predicted on earlier, later or overlapping data, or evaluated before with another splitter/series) "
         "+ malformed arguments + direct _split calls + an oracle-only stream with sktime's NaiveForecaster and metric objects; "
         "distinct by driver line; non-trivial = evaluate returned a table with at least one row")
@@ -68,6 +70,17 @@ LEVEL_TEXT = ("Lean 4 theorems, for all series, splitter configurations, both st
 LEVEL_NOTE = ("Trusted: Lean kernel, axioms propext/Classical.choice/Quot.sound, faithfulness of the model as exercised by the correspondence, C01 splitter model, harness + compat layer. "
               "Only modelled: timing columns (absent), pandas append/astype mechanics (a row list). Integer index only.")
 TECHNIQUE = "Lean 4 proof (structural induction over the fold loop, refinement against an honest per-fold specification) + differential correspondence with a recording forecaster and asymmetric metrics"
+
+# A missing value (NaN) in y is, for evaluate, just one more value it hands through.  The recording forecaster and the
+# harness metrics "tolerate" NaN by reading it as the sentinel NAN_AS; the driver line and every printed series carry
+# the sentinel too, so the value-polymorphic model sees an ordinary number.
+NAN_AS = -1024.0
+
+
+def _nn(v):
+    v = float(v)
+    return NAN_AS if v != v else v
+
 
 ERR_EXC = {"value": ValueError, "type": TypeError, "key": KeyError, "index": IndexError, "notimpl": NotImplementedError,
            "attr": AttributeError}
@@ -91,7 +104,7 @@ def rec_class():
     from sktime.utils.validation.forecasting import check_fh
 
     def fr(v):
-        return Fraction(float(v))
+        return Fraction(_nn(v))
 
     def dig(y):
         return sum(((j + 1) * fr(v) for j, v in enumerate(np.asarray(y, dtype="float64"))), Fraction(0))
@@ -112,7 +125,7 @@ def rec_class():
             return "badfh"
 
     def ser(y):
-        return "%s:%s" % (show_ints(y.index), show_rats(float(v) for v in np.asarray(y, dtype="float64")))
+        return "%s:%s" % (show_ints(y.index), show_rats(_nn(v) for v in np.asarray(y, dtype="float64")))
 
     def frame(X):
         if X is None:
@@ -184,8 +197,13 @@ class _M:
         self._f = f
 
     def __call__(self, y_true, y_pred):
-        a = np.asarray(y_true, dtype="float64"); b = np.asarray(y_pred, dtype="float64")
-        return float(self._f(a, b))
+        return float(self._f(_arr(y_true), _arr(y_pred)))
+
+
+def _arr(v):
+    a = np.asarray(v, dtype="float64").copy()
+    a[a != a] = NAN_AS
+    return a
 
 
 def _asym(a, b):
@@ -208,6 +226,18 @@ def make_metric(kind):
         m = _M("wasym", _wasym); return m, m
     if kind == "sym":
         m = _M("sym", _sym); return m, m
+    if kind == "gasym":       # a library scorer object with greater_is_better=True
+        from sktime.performance_metrics.forecasting import make_forecasting_scorer
+        m = make_forecasting_scorer(lambda yt, yp: float(_asym(_arr(yt), _arr(yp))), name="gasym", greater_is_better=True)
+        return m, m
+    if kind == "gcust":       # a custom callable carrying that attribute
+        m = _M("gcust", _wasym); m.greater_is_better = True
+        return m, m
+    if kind == "gmae":        # library stream: a score (greater is better) next to the loss metrics
+        from sktime.performance_metrics.forecasting import make_forecasting_scorer
+        m = make_forecasting_scorer(lambda yt, yp: float(np.mean(np.abs(np.asarray(yt, dtype="float64") - np.asarray(yp, dtype="float64")))) + 0.5,
+                                    name="gmae", greater_is_better=True)
+        return m, m
     if kind == "noname":
         m = _M(None, _asym); return m, None
     if kind == "notcallable":
@@ -240,7 +270,7 @@ def make_cv(cv):
 def make_data(c):
     """`ydt` / `xdt` = dtype of the series / of the exogenous frame (float64 when absent); the values of a case with an
     integer dtype are whole numbers, those of a float32 case are exactly representable"""
-    y = pd.Series(np.array(c["yv"], dtype="float64").astype(c.get("ydt") or "float64"), index=pd.Index(np.array(c["yl"], dtype="int64")))
+    y = pd.Series(np.array([np.nan if v is None else v for v in c["yv"]], dtype="float64").astype(c.get("ydt") or "float64"), index=pd.Index(np.array(c["yl"], dtype="int64")))
     X = None
     if c.get("x") is not None:
         xl = c.get("xl") or c["yl"]
@@ -250,7 +280,7 @@ def make_data(c):
 
 
 def _ser(s):
-    return "%s:%s" % (show_ints(s.index), show_rats(float(v) for v in np.asarray(s, dtype="float64")))
+    return "%s:%s" % (show_ints(s.index), show_rats(_nn(v) for v in np.asarray(s, dtype="float64")))
 
 
 def _safe(f, *a):
@@ -373,7 +403,7 @@ def to_line(c):
         fail = "none" if c.get("fail") is None else "%d:%s" % (c["fail"][0], c["fail"][1])
         return "C07 eval %s %s %s %s %s %s %s %s %s %s" % (
             _cv_tok(c["cv"]), strat, c["met"], show_bool(c["rd"]), "none" if c.get("fp") is None else c["fp"], fail,
-            _pre_tok(c.get("pre")), show_ints(c["yl"]), show_rats(c["yv"]), _x_tok(c))
+            _pre_tok(c.get("pre")), show_ints(c["yl"]), show_rats(NAN_AS if v is None else v for v in c["yv"]), _x_tok(c))
     if c["op"] == "lib":
         return None
     if c["op"] == "split":
@@ -792,7 +822,7 @@ def features(c, out):
     f = ["op=eval", "cv=" + c["cv"][0], "strategy=" + str(c["strat"]), "metric=" + c["met"], "X=" + ("yes" if c.get("x") is not None else "no"),
          "return_data=%s" % c["rd"], "result=" + ("table" if d["err"] == "none" else d["err"]), "fail=" + ("no" if c.get("fail") is None else "injected"),
          "initial_window=" + ("yes" if c["cv"][0] == "s" and c["cv"][4] is not None else "no"),
-         "y-dtype=" + (c.get("ydt") or "float64"), "X-dtype=" + ("none" if c.get("x") is None else (c.get("xdt") or "float64")),
+         "y-dtype=" + (c.get("ydt") or "float64"), "y-missing=" + (c.get("nan") or "none"), "X-dtype=" + ("none" if c.get("x") is None else (c.get("xdt") or "float64")),
          "prior-state=" + ("fresh" if c.get("pre") is None else "evaluated-before" if c["pre"][0] == "eval" else "fitted-on-other-data")]
     if d["err"] == "none":
         n = len(parse_ints_(d["len"]))
@@ -835,7 +865,31 @@ def _xrows(rng, n, ncol, dt=None):
     return [[rng.randrange(0, 33) / 4 for _ in range(ncol)] for _ in range(n)]
 
 
-METRICS = ["asym", "wasym", "sym", "default", "mape"]
+METRICS = ["asym", "wasym", "sym", "default", "mape", "gasym", "gcust"]
+NAN_OK_METRICS = ["asym", "wasym", "sym", "gasym", "gcust"]      # sktime's own metrics reject NaN input
+
+
+def _with_nan(rng, c):
+    """missing values in y as a dimension: a leading block (differenced / lagged / rolling series), interior,
+    trailing; float dtype, NaN-tolerant metric"""
+    n = len(c["yv"])
+    kind = rng.choice(["lead", "lead", "lead", "interior", "trail", "lead+interior"])
+    yv = list(c["yv"])
+    if "lead" in kind:
+        for i in range(rng.randrange(1, max(2, min(4, n - 2)))):
+            yv[i] = None
+    if "interior" in kind and n > 4:
+        yv[rng.randrange(2, n - 1)] = None
+    if kind == "trail":
+        for i in range(rng.randrange(1, 3)):
+            yv[n - 1 - i] = None
+    c["yv"] = yv
+    if _is_int(c.get("ydt")):
+        c["ydt"] = "float64"
+    if c["met"] not in NAN_OK_METRICS:
+        c["met"] = rng.choice(NAN_OK_METRICS)
+    c["nan"] = kind
+    return c
 FHS = [[1], [2], [1, 2], [1, 3], [2, 3], [1, 2, 3], [3]]
 
 
@@ -869,6 +923,12 @@ def _gen_pre(rng, yl):
 
 def _mk(rng, cv, n, strat, met, rd, x, lab="zero", fp=None, fail=None):
     ydt, xdt = rng.choice(YDTYPES), rng.choice(XDTYPES)
+    if fail is None and rng.random() < 0.2:
+        c = _mk(rng, cv, n, strat, met, rd, x, lab, fp, ("nonan",))
+        c["fail"] = None
+        return _with_nan(rng, c)
+    if fail == ("nonan",):
+        fail = None
     c = {"op": "eval", "cv": cv, "strat": strat, "met": met, "rd": rd, "fp": fp, "fail": fail, "pre": None,
          "yl": _labels(rng, n, lab), "yv": _values(rng, n, ydt), "x": None if not x else _xrows(rng, n, x, xdt), "xl": None,
          "ydt": ydt, "xdt": xdt if x else None}
@@ -1002,7 +1062,7 @@ def gen_cases(tier, rng):
                          ["s", fh, wl, step, wl + rng.randrange(1, 4), True], ["c", sorted(rng.sample(range(2, n - 4), 2)), fh, wl]])
         ydt = rng.choice(YDTYPES)
         cases.append({"op": "lib", "fc": rng.choice(["last", "mean", "mean", "drift"]), "cv": cv, "strat": rng.choice(["refit", "update"]),
-                      "met": rng.choice(["default", "mape"]), "yl": _labels(rng, n, rng.choice(["zero", "shift"])), "yv": _values(rng, n, ydt),
+                      "met": rng.choice(["default", "mape", "gmae"]), "yl": _labels(rng, n, rng.choice(["zero", "shift"])), "yv": _values(rng, n, ydt),
                       "x": None, "xl": None, "pre": None, "ydt": ydt})
         if rng.random() < 0.5:
             cases[-1]["pre"] = _gen_pre(rng, cases[-1]["yl"])
@@ -1066,6 +1126,8 @@ def shrink(c):
         if cv[0] == "s" and cv[4] is not None:
             cv2 = list(cv); cv2[4] = None
             yield dict(c, cv=cv2)
+    if None in c["yv"]:
+        return
     if c["yv"] != [float(i + 1) for i in range(n)] and not (_is_int(c.get("ydt")) and n > 3 and c["yv"] == [float((7 * i) % 5 + 1) for i in range(n)]):
         if _is_int(c.get("ydt")):     # keep whole numbers, but not a straight line (forecasts stay fractional)
             yield dict(c, yv=[float((7 * i) % 5 + 1) for i in range(n)])
